@@ -581,3 +581,6 @@ def run(ctx):
     # ---- R03.10 an ignored directory contributes no ignore files of its own (discovery pruning, owned by C14)
     ctx.rule("R03.10", "the ignore file of a directory that an ancestor's file ignores is never loaded, so it cannot re-include anything")
     ctx.borrow("C14", ["R14.2"], "R03.10", "visit_path yields a directory only after check_dir accepted it against the filter grown so far")
+
+    ctx.rule("R03.11", "every ignore file found in a directory joins the walk's filter before the next one is looked for, so an earlier file's exclusions prune the directories below")
+    ctx.borrow("C14", ["R14.3"], "R03.11", "each discover_file of the Find arm is followed by add_last_file_to_filter on the same path")
